@@ -326,7 +326,8 @@ fn scalars(src: &mut Src, st: &mut Stats, _env: &Env) -> CaseResult {
 }
 
 fn deep(src: &mut Src, st: &mut Stats, _env: &Env) -> CaseResult {
-    let d = 1 + src.below(100);
+    // up to the deepest nesting the JSON parser underneath admits (127 containers)
+    let d = if src.chance(70) { 118 + src.below(10) } else { 1 + src.below(100) };
     let mut text = String::new();
     let mut kinds = vec![];
     for _ in 0..d {
